@@ -82,9 +82,13 @@ def gen_value(rng, typ, words=SIMPLE_WORDS, null_p=0.1):
     if typ == 'boolean':
         return rng.random() < 0.5
     if typ == 'number':
+        if rng.random() < 0.3:
+            return decimal.Decimal(rng.choice(['1.5', '1.50', '100', '1E+2', '100.0']))
         return rng.choice([decimal.Decimal('0'), decimal.Decimal('1.5'), decimal.Decimal('-2.25'),
                            decimal.Decimal('3.14159265358979323846'), decimal.Decimal('1E+3'),
                            decimal.Decimal('100'), decimal.Decimal('-0.001'),
+                           # equal as numbers, different as values (scale): 1.5 / 1.50, 100 / 1E+2 / 100.0
+                           decimal.Decimal('1.50'), decimal.Decimal('1E+2'), decimal.Decimal('100.0'),
                            decimal.Decimal(rng.randrange(-10**6, 10**6)) / 1000])
     if typ == 'float':
         return rng.choice([0.0, 1.5, -2.25, 1e10, 3.25, rng.randrange(-10**6, 10**6) / 64.0])
